@@ -272,7 +272,10 @@ def run_item(item):
                 res.setdefault("tvlist", []).append((round(d, 4), name + "|n=%d" % n, str(th)))
                 if d > bnd["tv_bgrid"]:
                     worst = int(np.argmax(np.abs(emp - shares)))
-                    viol("C11|boundary-grid-uneven|%s" % _law_sig(a), "sample_grid(n=%d) at %s: total-variation distance %.3f between cell fractions and boundary-measure "
+                    fam = _law_sig(a)
+                    if fam == "boolean-boundary" and G.depth(a["a"]) >= 2:
+                        fam = "nested-boolean-boundary"      # an operand is itself a Boolean result: its boundary length is an estimate
+                    viol("C11|boundary-grid-uneven|%s" % fam, "sample_grid(n=%d) at %s: total-variation distance %.3f between cell fractions and boundary-measure "
                          "shares on the %d^%d partition exceeds %.3f (worst cell %d: %.4f of the points vs %.4f of the measure)" % (
                              n, th, d, m, D, bnd["tv_bgrid"], worst, emp[worst], shares[worst]))
                 elif (shares > 0).sum() >= 4:
